@@ -301,6 +301,10 @@ def valid_event(rng, time, first):
     k = rng.random()
     ch = rng.randrange(16)
     v = lambda: rng.choice([0, 1, 63, 64, 100, 126, 127, rng.randrange(128)])
+    if k < 0.06:
+        # raw bytes that are a well-formed channel message of a kind no command writes: poly / channel aftertouch, program
+        raw = rng.choice([[0xD0 | ch, v()], [0xA0 | ch, v(), v()], [0xC0 | ch, v()], [0xD0 | ch, v()]])
+        return "D:%d:0:0:0:0:%s" % (time, evgen.hexs(raw))
     if k < 0.30:
         return "N:%d:%d:%d:%d:%d:-" % (time, ch, v(), rng.choice([0, 1, 48, 96, 127, 128, 200, 20000]), v())
     if k < 0.45:
@@ -435,7 +439,8 @@ def run(ctx):
     srcs += [mmlgen.mutate(rng, s) for s in mmlgen.samples() for _ in range(3 if quick else 60)]
     srcs += ["q100 l%127 c d", "l%128 c d", "l%16383 c l%16384 d l%2097152 e", "TR(3) c TR(1) d TR(2) e", "@128 c", "PB(8191) c p(0) d",
              "TrackName={\"abc\"} c", "Copyright={\"(c) あ\"} c", "Tempo(1) c", "Tempo(300) c", "TimeSignature(6,8) l8 cdefgab",
-             "TimeSignature(3,4) TR(2) r1 c", "SysEx$=F0,41,10,42,12,40,00,7F,00,41,F7 c", "BR(12) c", "y1,127 c", "M(64) c"]
+             "TimeSignature(3,4) TR(2) r1 c", "SysEx$=F0,41,10,42,12,40,00,7F,00,41,F7 c", "BR(12) c", "y1,127 c", "M(64) c",
+             "c DirectSMF($D0,$40) d e", "c DirectSMF($A1,60,$40) d e", "TR(2) c DirectSMF($C1,5) d DirectSMF($D1,0) e DirectSMF($D1,127)"]
     # tempo values up to a bpm so large that the file says 0 microseconds per quarter
     for _ in range(12 if quick else 400):
         bpm = rng.choice([1, 2, 10, 300, 301, 59999999, 60000000, 60000001, 10 ** 9, 2 ** 40, -1, 0, rng.randrange(1, 2 ** 34)])
